@@ -342,10 +342,13 @@ Theorem C07_entity_total_links : forall e,
 Proof. exact compile_entity_total. Qed.
 Print Assumptions C07_entity_total_links.
 
-(* accepted: a closed expansion (C17: closed exactly when the user's own references resolve) with well-formed
-   fields, existing path parameters and known HTTP verbs converts without an error and every file links *)
+(* accepted: a closed expansion (C17: closed exactly when the user's own references resolve; trees_closed: the same for
+   the references inside tree-form inline schemas, which Entity.v checks on the declaration with trees_ok) with
+   well-formed fields at every depth, existing path parameters and known HTTP verbs converts without an error and
+   every file links *)
 Theorem C07_entity_accepted : forall pok cs,
-  closed cs = true -> forallb ofield_ok_deep (Entity.fields_of cs) = true -> forallb (comp_clean pok) cs = true ->
+  closed cs = true -> trees_closed (defined cs) (Entity.fields_of cs) = true ->
+  forallb ofield_ok_deep (Entity.fields_of cs) = true -> forallb (comp_clean pok) cs = true ->
   entity_verdict pok cs = VOk.
 Proof. exact entity_accepted. Qed.
 Print Assumptions C07_entity_accepted.
